@@ -35,7 +35,8 @@ RULE = ("seeded scripts; distinct = canonical script JSON; non-trivial = >=1 fau
 REQUIRED_BUCKETS = ["fault:state", "fault:relay", "fault:cap", "fault:crit", "fault:stale", "inv-fault:state",
                     "inv-fault:crit", "silence>maxage:bat", "silence>maxage:inv", "silence<maxage", "set-power-failed",
                     "set-power-succeeded", "blocked-twice(back-off)", "back-off-capped", "recovered", "uncertain-seen",
-                    "pool-fallback-to-uncertain", "pool-tier", "pool-fallback-to-uncertain(live)"]
+                    "pool-fallback-to-uncertain", "pool-tier", "pool-fallback-to-uncertain(live)",
+                    "pool-outcome-messages-back-to-back"]
 REQUIRED_COUNTERS = ["status_reports_checked", "block_calls_observed", "scripts_run"]
 ASSUMPTIONS = ["virtual clock; fake API"]
 
@@ -386,7 +387,11 @@ def gen_pool(rng: Any) -> dict[str, Any]:
     for _ in range(rng.randint(2, 5)):
         phases.append({"healthy": [rng.random() < 0.7 for _ in range(nb)],
                        "fail": [rng.random() < 0.3 for _ in range(nb)],
-                       "fault": [rng.choice(["state", "relay", "cap", "crit", "silence", "inv-state"]) for _ in range(nb)]})
+                       "fault": [rng.choice(["state", "relay", "cap", "crit", "silence", "inv-state"]) for _ in range(nb)],
+                       # further outcome messages handed over back to back (no suspension in between), each
+                       # battery: "s" succeeded / "f" failed / "-" not mentioned
+                       "burst": ([[rng.choice("sf--") for _ in range(nb)] for _ in range(rng.randint(1, 3))]
+                                 if rng.random() < 0.5 else [])})
     return {"tier": "pool", "nb": nb, "phases": phases}
 
 
@@ -428,6 +433,10 @@ async def _drive_pool(case: dict[str, Any], out: dict[str, Any]) -> None:
         failed = {10 + b for b in range(nb) if ph["fail"][b]}
         if failed:
             await pool.update_status(set(), failed)
+        for msg in ph.get("burst", []):
+            await pool.update_status({10 + b for b in range(nb) if msg[b] == "s"},
+                                     {10 + b for b in range(nb) if msg[b] == "f"})
+        if failed or ph.get("burst"):
             await asyncio.sleep(0.05)
         last = None
         while rx._q:  # noqa: SLF001
@@ -453,7 +462,17 @@ def check_pool(case: dict[str, Any], rec: Any) -> None:
     for cp in out["checkpoints"]:
         ph = cp["phase"]
         healthy = {10 + b for b in range(nb) if ph["healthy"][b]}
-        failed = {10 + b for b in range(nb) if ph["fail"][b]}
+        # every outcome message counts, in the order handed over: a success clears the block, a failure blocks
+        failed = set()
+        msgs = ([["f" if x else "-" for x in ph["fail"]]] if any(ph["fail"]) else []) + ph.get("burst", [])
+        for msg in msgs:
+            for b in range(nb):
+                if msg[b] == "s":
+                    failed.discard(10 + b)
+                elif msg[b] == "f":
+                    failed.add(10 + b)
+        if len(msgs) > 1:
+            rec.bucket("pool-outcome-messages-back-to-back")
         exp_working = sorted(healthy - failed)
         exp_uncertain = sorted(healthy & failed)
         rec.count("pool_checkpoints")
